@@ -272,7 +272,19 @@ class Translator:
                         raise CannotNormalise(f"norm order {ot}")
                 return ("norm", ordn, self.tr(e.args[0]))
             if d == "max" and e.args:
-                return ("max", frozenset(self._hashable(self.tr(a)) for a in e.args))
+                args = list(e.args)
+                # max(*(a, b)), max((a, b, c)), max([a, b]) are max(a, b, ..)
+                if len(args) == 1 and isinstance(args[0], (ast.Tuple, ast.List)) and not e.keywords:
+                    args = list(args[0].elts)
+                flat = []
+                for a in args:
+                    if isinstance(a, ast.Starred) and isinstance(a.value, (ast.Tuple, ast.List)):
+                        flat += list(a.value.elts)
+                    else:
+                        flat.append(a)
+                args = flat
+                if not any(isinstance(a, ast.Starred) for a in args):
+                    return ("max", frozenset(self._hashable(self.tr(a)) for a in args))
             if d in ("np.concatenate", "numpy.concatenate", "np.hstack") and e.args and isinstance(e.args[0], (ast.List, ast.Tuple)):
                 return ("block", tuple(self.tr(x) for x in e.args[0].elts))
             if d in ("np.sum",) and len(e.args) == 1 and isinstance(e.args[0], ast.BinOp) and isinstance(e.args[0].op, ast.Mult):
